@@ -50,6 +50,7 @@ pub fn parse_query_string(input: &str) -> Result<Request, ParseRequestError> {
         operation_name: request.operation_name,
         variables,
         extensions,
+        disallow_mutation: true,
         ..Request::new(request.query)
     })
 }
